@@ -186,8 +186,9 @@ struct reb_rotation reb_rotation_init_from_to(struct reb_vec3d from, struct reb_
     struct reb_vec3d half = {.x=from.x+to.x, .y=from.y+to.y, .z=from.z+to.z};
     half = reb_vec3d_normalize(half);
 
-    if (!isnormal(reb_vec3d_length_squared(half))) {
-        //  half is nearly zero, so from and to point in nearly opposite directions
+    if (reb_vec3d_length_squared(reb_vec3d_cross(from, to)) < 1e-30 || !isnormal(reb_vec3d_length_squared(half))) {
+        //  from and to are antiparallel to rounding error (the sine of their angle is below 1e-15),
+        //  so from and to point in nearly opposite directions
         //  and the rotation is numerically underspecified. Pick an axis orthogonal
         //  to the vectors, and use an angle of pi radians.
         struct reb_vec3d abs_from = {.x=fabs(from.x), .y=fabs(from.y), .z=fabs(from.z)};
